@@ -4,6 +4,35 @@ from .checklib import Outcome
 from .common import MachineryFailure, seed, tier
 
 
+def _resolved_tables(out):
+    """table level: real resolved tables = Resolve.tla of the unresolved cells (ResolvedWalk.tla); design level: PrecDesign.tla"""
+    from . import stage_res
+
+    r = stage_res.get(tier(), seed())
+    d = r["design"]
+    if d["violated"]:
+        raise MachineryFailure("design-level theorem of spec/PrecDesign.tla is violated (%s): the reference needs repair, no verdict on the code" % d["violated"])
+    if not d["neg_violated"]:
+        raise MachineryFailure("negative control of PrecDesign (mixed associativity at one priority) did not fail: the design-level check is vacuous")
+    out.cov["states"] += r["stats"]["states"] + d["states"]
+    out.cov["transitions"] += r["stats"]["generated"] + d["generated"]
+    out.cov["design_level_Resolve_gives_precedence_correct_trees"] = d["runs"]
+    out.cov["resolved_tables"] = {"walked": len(r["cases"]), "with_conflict_cells_left": sum(1 for c in r["cases"] if c["conflict_cells"]),
+                                  "with_order_sensitive_cells_skipped": sum(1 for c in r["cases"] if c["sensitive_states"]), "not_built": len(r["unbuilt"])}
+    for c in r["cases"]:
+        out.count()
+        out.cov["traces_validated_against_impl"] += 1
+        if c["marked"]:
+            out.nontrivial("table:" + c["name"])
+        for b in c["bad"]:
+            for cl in b["clauses"]:
+                out.fail(cl, "%s @ state %s" % (c["name"], b["state"]), {"kind": "resolved-table", "name": c["name"], "gtext": c["gtext"], "state": b["state"], "detail": b["detail"]},
+                         origin=c["origin"])
+    for u in r["unbuilt"]:
+        if u["kind"] == "ops":
+            out.fail("C06:parser-does-not-construct", u["name"], {"kind": "resolved-table", "name": u["name"], "gtext": u["gtext"], "err": u["err"]}, origin=u["origin"])
+
+
 def c06(replay_case=None):
     out = Outcome("C06")
     if replay_case is not None:
@@ -35,10 +64,16 @@ def c06(replay_case=None):
                     raise MachineryFailure("reference inconsistency %s on %s" % (cl, name))
                 if cl.startswith("C06:"):
                     out.fail(cl, name, dict(rep, expression=e["toks"], observed={"lr": e["lr"], "glr_trees": e["nglr"]}), origin=c["origin"])
+    if replay_case is None:
+        _resolved_tables(out)
     out.assumptions = ["expression grammar E: E op E {assoc, prio} | '(' E ')' | 'n' with every operator production marked; operators of equal priority share one associativity",
                        "priority numbers drawn from a pool containing 0, the default 10, and values above 256"]
     return out.finish(extra_cov={
         "rule": "cases = operator tables (all level/associativity shapes for <= 3 operators, seeded random up to 6 operators over up to 6 levels, shuffled alternatives, "
                 "varied priority numbers) x expressions (all n a n b n, malformed ones, random with parentheses up to 9 tokens); TLC enumerates every tree of the token sequence, "
                 "selects the unique precedence-correct one and compares with Parser (strategies off), GLRParser, and the stratified LALR(1) grammar with and without marks; "
-                "non-trivial = expression with >= 2 trees in the unmarked grammar"})
+                "non-trivial = expression with >= 2 trees in the unmarked grammar; "
+                "table level: the real Parser/GLRParser tables of those operator grammars (LALR, SLR) and GLRParser tables of small general grammars with random "
+                "priority/associativity/nops/nopse marks under the 4 prefer-shift combinations are walked against the canonical LR(1) automaton and every cell is compared "
+                "with Resolve!ResolveCell of the unresolved cell (ResolvedWalk.tla); design level: PrecDesign.tla (spec-built LALR table + Resolve => deterministic and "
+                "precedence-correct for every operator table over K operators, exhaustive, with a failing negative control)"})
